@@ -201,9 +201,10 @@ def _solve_stages(args, ctl=None):
     that produced it; the last item is the final sat / unknown verdict."""
     name, text, expect, timeout_ms, use_cvc5 = args[:5]
     subsets = args[5] if len(args) > 5 else []
+    lite = bool(args[6]) if len(args) > 6 else False   # retry pass: only the stages that settle obligations in practice
     t0 = time.time()
     first = min(timeout_ms, max(6000, timeout_ms // 4))   # 6 s in the first pass, 15 s in the retry pass (60 s budget)
-    subt = max(15000, timeout_ms // 3)   # premise-selected sub-problems: the stage that settles most hard obligations
+    subt = max(12000, timeout_ms // 3)   # premise-selected sub-problems: the stage that settles most hard obligations
     LIN = {"smt.mbqi": False, "smt.arith.nl": False}
     EM = {"smt.mbqi": False}
     # Restricted configurations: E-matching only (EM), and additionally nonlinear products treated
@@ -239,6 +240,9 @@ def _solve_stages(args, ctl=None):
         yield name, r, "z3", time.time() - t0, reason, (text, {})
         if r == "sat":
             return
+    if lite:
+        yield name, "unknown", "z3", time.time() - t0, reason or "undecided in the retry pass as well"
+        return
     for tag, sub in subsets:
         if late():
             break
@@ -332,7 +336,7 @@ def run_jobs(jobs, workers, hard_factor=3.0):
             p = ctx.Process(target=_job_main, args=(child, job), daemon=True)
             p.start()
             child.close()
-            hard = (6 * min(job[3], max(6000, job[3] // 4)) + job[3] + 3 * max(15000, job[3] // 3) * (len(job[5]) if len(job) > 5 else 0)) / 1000.0 * 1.5 + (CVC5_TIMEOUT_S + 6 if job[4] else 0) + 5 + (100 if CONFIRM else 0) + 16 * (len(job[5]) if len(job) > 5 else 0) + (240 if CONFIRM else 0)
+            hard = (6 * min(job[3], max(6000, job[3] // 4)) + job[3] + 3 * max(12000, job[3] // 3) * (len(job[5]) if len(job) > 5 else 0)) / 1000.0 * 1.5 + (CVC5_TIMEOUT_S + 6 if job[4] else 0) + 5 + (100 if CONFIRM else 0) + 16 * (len(job[5]) if len(job) > 5 else 0) + (240 if CONFIRM else 0)
             running[job[0]] = (p, parent, time.time(), hard)
         done = []
         for name, (p, conn, t0, hard) in running.items():
@@ -358,7 +362,7 @@ def run_jobs(jobs, workers, hard_factor=3.0):
     return results
 
 
-def solve_all(obligations, workers=None, timeout_ms=None, use_cvc5=True):
+def solve_all(obligations, workers=None, timeout_ms=None, use_cvc5=True, lite=False):
     workers = workers or min(16, os.cpu_count() or 4)
     timeout_ms = timeout_ms or Z3_TIMEOUT_MS
     jobs = []
@@ -366,7 +370,7 @@ def solve_all(obligations, workers=None, timeout_ms=None, use_cvc5=True):
         subsets = []
         if ob.expect == "valid" and len(ob.hyps) > 12:
             seen_sizes = set()
-            for depth, tol, seed in ((1, 1.0, False), (2, 1.0, False), (1, 1.0, True), (3, 1.2, False), (3, 1.2, True)):
+            for depth, tol, seed in ((1, 1.0, False), (1, 1.0, True), (2, 1.0, False), (3, 1.2, False), (3, 1.2, True)):
                 try:
                     sel, nq, nsel = select_premises(ob, depth, tol, seed)
                 except Exception:  # noqa: BLE001
@@ -375,7 +379,7 @@ def solve_all(obligations, workers=None, timeout_ms=None, use_cvc5=True):
                     continue
                 seen_sizes.add(nsel)
                 subsets.append((f"sel{depth}{'g' if seed else ''}", to_smt2(ob, sel)))
-        jobs.append((ob.name, to_smt2(ob), ob.expect, timeout_ms, use_cvc5, subsets))
+        jobs.append((ob.name, to_smt2(ob), ob.expect, timeout_ms, use_cvc5, subsets, lite))
     verdicts = {}
     if not jobs:
         return verdicts
